@@ -21,7 +21,10 @@
 (***************************************************************************)
 EXTENDS Util
 
-CONSTANT Dev
+CONSTANT Dev,
+         UseStaticCfg, StaticCfg   \* bounded models keep the (constant) configuration out of their states
+
+Cfg(s) == IF UseStaticCfg THEN StaticCfg ELSE s.cfg
 
 BatchCap == 100
 
@@ -70,9 +73,10 @@ SetStatus(s, x, status, out) ==
 \* createSendToExternal: debits the sender, burns, stores a pool entry with amounts in external units.
 \* Returns [ok, s, id].
 CreateSend(s, chain, sender, dest, denom, amt, fee, comm, x, rchain, raddr) ==
-    LET tok   == TokByDenom(s.cfg, chain, denom)
+    LET tok   == TokByDenom(Cfg(s), chain, denom)
         total == amt + fee + comm
-    IN  IF ~Found(tok) \/ ~IsChain(s.cfg, chain) THEN [ok |-> FALSE, s |-> s, id |-> 0]
+    IN  IF ~Found(tok) \/ ~IsChain(Cfg(s), chain) THEN [ok |-> FALSE, s |-> s, id |-> 0]
+        ELSE IF total <= 0 THEN [ok |-> FALSE, s |-> s, id |-> 0]        \* the bank rejects a zero coin
         ELSE IF BalOf(s, sender, denom) < total THEN [ok |-> FALSE, s |-> s, id |-> 0]
         ELSE LET id == s.ch[chain].txid + 1
                  tr == [id |-> id, s |-> sender, d |-> dest, tok |-> tok.ext,
@@ -90,7 +94,7 @@ PoolKeyGreater(cfg, chain, a, b) ==
         \/ oa = ob /\ a.f > b.f
         \/ oa = ob /\ a.f = b.f /\ a.id > b.id
 \* the pool of a chain in reverse key order (what the keeper's reverse iterators visit)
-PoolDesc(s, chain) == SortBy(s.ch[chain].pool, LAMBDA a, b : PoolKeyGreater(s.cfg, chain, a, b))
+PoolDesc(s, chain) == SortBy(s.ch[chain].pool, LAMBDA a, b : PoolKeyGreater(Cfg(s), chain, a, b))
 
 \* entries visited by the by-token prefix scan.  With the deviation the scan also matches every token
 \* whose external id has `ext` as a prefix.
@@ -106,7 +110,7 @@ CancelSend(s, chain, id, who) ==
     IN  IF hits = {} THEN [ok |-> FALSE, s |-> s]
         ELSE LET tr == CHOOSE tr \in hits : TRUE IN
              IF who # tr.s THEN [ok |-> FALSE, s |-> s]
-             ELSE LET tok    == TokByExt(s.cfg, chain, tr.tok)
+             ELSE LET tok    == TokByExt(Cfg(s), chain, tr.tok)
                       denom  == tok.denom
                       refund == ConvDec(tok.dec, 18, tr.a + tr.f + tr.c)
                       s1     == Credit(s, "mod", denom, refund)
@@ -129,12 +133,12 @@ AvgExtMs(cfg, chain) ==
 BatchTimeout(s, chain) ==
     LET c == s.ch[chain] IN
     IF c.lohc = 0 \/ c.lohe = 0 THEN 0
-    ELSE ((s.h - c.lohc) * s.cfg.avg_block_ms) \div AvgExtMs(s.cfg, chain) + c.lohe
-         + s.cfg.target_ms \div AvgExtMs(s.cfg, chain)
+    ELSE ((s.h - c.lohc) * Cfg(s).avg_block_ms) \div AvgExtMs(Cfg(s), chain) + c.lohe
+         + Cfg(s).target_ms \div AvgExtMs(Cfg(s), chain)
 
 \* BuildBatchTx.  Returns [made, s]; made = FALSE when nothing was stored.
 BuildBatch(s, chain, ext, cap) ==
-    LET cand == SelectSeq(PoolDesc(s, chain), LAMBDA tr : ScanMatches(s.cfg, chain, ext, tr))
+    LET cand == SelectSeq(PoolDesc(s, chain), LAMBDA tr : ScanMatches(Cfg(s), chain, ext, tr))
         sel  == TakeN(cand, cap)
     IN  IF sel = <<>> /\ "EmptyBatch" \notin Dev THEN [made |-> FALSE, s |-> s]
         ELSE
@@ -192,7 +196,7 @@ PowerDiffExceeds(cur, lat) == LLess(<<3276, 52428>>, PowerDelta(cur, lat))
 CreateSignerSet(s, chain) ==
     LET n == s.ch[chain].ssn + 1
         q == s.ch[chain].seq + 1
-        ss == [n |-> n, ht |-> s.h, seq |-> q, m |-> SortedMembers(s.cfg, CurrentSigners(s, chain))]
+        ss == [n |-> n, ht |-> s.h, seq |-> q, m |-> SortedMembers(Cfg(s), CurrentSigners(s, chain))]
     IN [s EXCEPT !.ch[chain].ssn = n, !.ch[chain].seq = q, !.ch[chain].ss = @ \cup {ss}]
 
 MaybeCreateSignerSet(s, chain) ==
@@ -203,8 +207,8 @@ MaybeCreateSignerSet(s, chain) ==
 
 PruneSignerSets(s, chain) ==
     LET c == s.ch[chain] IN
-    IF c.loss = <<>> \/ s.h < s.cfg.ss_window THEN s
-    ELSE [s EXCEPT !.ch[chain].ss = {x \in @ : ~(x.n < c.loss.n /\ x.ht < s.h - s.cfg.ss_window)}]
+    IF c.loss = <<>> \/ s.h < Cfg(s).ss_window THEN s
+    ELSE [s EXCEPT !.ch[chain].ss = {x \in @ : ~(x.n < c.loss.n /\ x.ht < s.h - Cfg(s).ss_window)}]
 
 \* ---------------------------------------------------------------- BeginBlocker
 CleanupTimedOutBatches(s, chain) ==
@@ -212,7 +216,7 @@ CleanupTimedOutBatches(s, chain) ==
     IN FoldSet(LAMBDA b, acc : CancelBatch(acc, chain, b), s, dead)
 
 PoolTokensAsc(s, chain) ==
-    SortBy({tr.tok : tr \in s.ch[chain].pool}, LAMBDA a, b : TokOrd(s.cfg, chain, a) < TokOrd(s.cfg, chain, b))
+    SortBy({tr.tok : tr \in s.ch[chain].pool}, LAMBDA a, b : TokOrd(Cfg(s), chain, a) < TokOrd(Cfg(s), chain, b))
 
 AutoBatches(s, chain) ==
     IF s.h % 2 # 0 THEN s
@@ -227,12 +231,12 @@ BeginChain(s, chain) ==
 
 BeginBlock(s, dt) ==
     LET s0 == [s EXCEPT !.h = @ + 1, !.t = @ + dt, !.inb = TRUE]
-    IN FoldLeft(LAMBDA acc, c : BeginChain(acc, c), s0, s.cfg.chains)
+    IN FoldLeft(LAMBDA acc, c : BeginChain(acc, c), s0, Cfg(s).chains)
 
 \* ---------------------------------------------------------------- event handling (ExternalEventProcessor.Handle)
 \* every handler returns [ok, s]; on ok = FALSE the caller discards s (the cache context is not written)
 HandleToHub(s, chain, tokExt, amt, rcv, txh) ==
-    LET tok == TokByExt(s.cfg, chain, tokExt) IN
+    LET tok == TokByExt(Cfg(s), chain, tokExt) IN
     IF ~Found(tok) THEN [ok |-> FALSE, s |-> s]
     ELSE LET conv == ConvDec(tok.dec, 18, amt)
              s1   == Credit(s, rcv, tok.denom, conv)
@@ -241,12 +245,12 @@ HandleToHub(s, chain, tokExt, amt, rcv, txh) ==
 MintedForDeposit(ev) == IF "MintAmountPlusFee" \in Dev THEN ev.amt + ev.fee ELSE ev.amt
 
 HandleDeposit(s, chain, ev) ==
-    IF ~IsChain(s.cfg, ev.rch) THEN [ok |-> FALSE, s |-> s]
+    IF ~IsChain(Cfg(s), ev.rch) THEN [ok |-> FALSE, s |-> s]
     ELSE IF ev.rch = "hub" THEN HandleToHub(s, chain, ev.tok, MintedForDeposit(ev), ev.rcv, ev.txh)
     ELSE LET r1 == HandleToHub(s, chain, ev.tok, MintedForDeposit(ev), "tmp", ev.txh) IN
          IF ~r1.ok THEN r1
-         ELSE LET src == TokByExt(s.cfg, chain, ev.tok)
-                  dst == TokByDenom(s.cfg, ev.rch, src.denom)
+         ELSE LET src == TokByExt(Cfg(s), chain, ev.tok)
+                  dst == TokByDenom(Cfg(s), ev.rch, src.denom)
               IN IF ~Found(dst) THEN [ok |-> FALSE, s |-> s]
                  ELSE LET camt == ConvDec(src.dec, 18, ev.amt)
                           cfee == ConvDec(src.dec, 18, ev.fee)
@@ -274,7 +278,7 @@ CommissionShare(s, vals, v, total) ==
 \* the Minter signer set in staking order (power desc, then cfg.valrank asc)
 MinterPayees(s) ==
     SortBy(BondedWithKey(s, "minter"),
-           LAMBDA a, b : s.stk[a].p > s.stk[b].p \/ (s.stk[a].p = s.stk[b].p /\ s.cfg.valrank[a] < s.cfg.valrank[b]))
+           LAMBDA a, b : s.stk[a].p > s.stk[b].p \/ (s.stk[a].p = s.stk[b].p /\ Cfg(s).valrank[a] < Cfg(s).valrank[b]))
 
 SumOver(seq, F(_)) == FoldLeft(LAMBDA acc, x : acc + F(x), 0, seq)
 
@@ -321,7 +325,7 @@ HandleExec(s, chain, ev) ==
         older == IF chain = "minter" THEN {} ELSE {o \in s.ch[chain].bat : o.n < b.n /\ o.tok = b.tok}
         s1    == FoldSet(LAMBDA o, acc : CancelBatch(acc, chain, o), s, older)
         s2    == [s1 EXCEPT !.ch[chain].bat = @ \ {b}]
-        tok   == TokByExt(s.cfg, chain, b.tok)
+        tok   == TokByExt(Cfg(s), chain, b.tok)
     IN  IF ~Found(tok) THEN [ok |-> FALSE, s |-> s, panic |-> TRUE]
         ELSE
         LET s3    == FoldLeft(LAMBDA acc, tr :
@@ -330,15 +334,18 @@ HandleExec(s, chain, ev) ==
             totF  == ConvDec(tok.dec, 18, SumOver(b.txs, LAMBDA tr : tr.f))
             payees == MinterPayees(s3)
             pset   == RangeOf(payees)
-            mtok   == TokByDenom(s.cfg, "minter", tok.denom)
+            mtok   == TokByDenom(Cfg(s), "minter", tok.denom)
         IN IF totC > 0 /\ payees # <<>> /\ ~Found(mtok) THEN [ok |-> FALSE, s |-> s, panic |-> TRUE]
            ELSE
-           LET s4 == IF totC <= 0 THEN s3
+           \* every payee gets a transfer; a share of zero makes createSendToExternal fail and the code panics
+           LET zeroShare == totC > 0 /\ \E v \in pset : CommissionShare(s3, pset, v, totC) <= 0
+               s4 == IF totC <= 0 THEN s3
                      ELSE FoldLeft(LAMBDA acc, v :
                               CreateSend(acc, "minter", "tmp", s3.ch["minter"].ve[v], tok.denom,
                                          CommissionShare(s3, pset, v, totC), 0, 0, "#commission", "", "").s,
                               Credit(s3, "tmp", tok.denom, totC), payees)
-           IN PayFees(s4, chain, ev, b, tok, totF)
+           IN IF zeroShare THEN [ok |-> FALSE, s |-> s, panic |-> TRUE]
+              ELSE PayFees(s4, chain, ev, b, tok, totF)
 
 HandleSSExec(s, chain, ev) ==
     [ok |-> TRUE, s |-> [s EXCEPT !.ch[chain].loss = [n |-> ev.ssn, m |-> ev.m]], panic |-> FALSE]
@@ -386,7 +393,7 @@ LastNonceOf(s, chain, v) ==
     ELSE LET low == Min({c.lon} \cup {r.n : r \in {r \in c.votes : r.acc}})
          IN IF low > 0 THEN low - 1 ELSE 0
 
-\* vote-record order inside a nonce (store key order = hash bytes); s.cfg carries no hash, so the trace
+\* vote-record order inside a nonce (store key order = hash bytes); Cfg(s) carries no hash, so the trace
 \* modules pass the observed order through `rank`; the generator uses insertion order.
 RecordVote(s, chain, v, ev) ==
     LET c    == s.ch[chain]
@@ -434,7 +441,7 @@ Tally(s, chain) ==
 
 \* refundExpiredTxs: every pool entry older than the timeout, visited in reverse key order
 RefundExpired(s, chain) ==
-    LET expired == SelectSeq(PoolDesc(s, chain), LAMBDA tr : tr.ct + s.cfg.out_timeout < s.t)
+    LET expired == SelectSeq(PoolDesc(s, chain), LAMBDA tr : tr.ct + Cfg(s).out_timeout < s.t)
     IN FoldLeft(LAMBDA acc, tr : CancelSend(acc, chain, tr.id, tr.s).s, s, expired)
 
 EndChain(acc, chain) ==
@@ -444,7 +451,7 @@ EndChain(acc, chain) ==
 
 \* EndBlocker of the bridge module (staking has already updated s.stk / s.tot: environment input)
 EndBlockHub(s) ==
-    LET r == FoldLeft(EndChain, [s |-> s, panic |-> FALSE], s.cfg.chains)
+    LET r == FoldLeft(EndChain, [s |-> s, panic |-> FALSE], Cfg(s).chains)
     IN [s |-> [r.s EXCEPT !.inb = FALSE], panic |-> r.panic]
 
 \* ---------------------------------------------------------------- message handlers
@@ -459,9 +466,9 @@ SendHash(s, chain) == "s" \o (CASE chain = "ethereum" -> "e" [] chain = "minter"
 
 \* a.dest valid: model names are valid addresses; "zero" is the zero address, "bad" a malformed one
 MsgSend(s, a) ==
-    LET tok == TokByDenom(s.cfg, a.chain, a.denom) IN
+    LET tok == TokByDenom(Cfg(s), a.chain, a.denom) IN
     IF a.amt <= 0 \/ a.fee < 0 \/ a.dest \in {"zero", "bad"} THEN Err(s)
-    ELSE IF ~IsChain(s.cfg, a.chain) \/ ~Found(tok) THEN Err(s)
+    ELSE IF ~IsChain(Cfg(s), a.chain) \/ ~Found(tok) THEN Err(s)
     ELSE LET comm == Commission(s, tok, {a.from, a.dest}, a.amt + a.fee)
          IN IF comm > a.amt THEN Err(s)                     \* Coin.SubAmount panics, recovered by baseapp
             ELSE LET cr == CreateSend(s, a.chain, a.from, a.dest, a.denom, a.amt - comm, a.fee, comm,
@@ -469,12 +476,12 @@ MsgSend(s, a) ==
                  IN IF cr.ok THEN [out |-> "ok", s |-> cr.s, id |-> cr.id] ELSE Err(s)
 
 MsgCancel(s, a) ==
-    IF a.id = 0 \/ ~IsChain(s.cfg, a.chain) THEN Err(s)
+    IF a.id = 0 \/ ~IsChain(Cfg(s), a.chain) THEN Err(s)
     ELSE LET r == CancelSend(s, a.chain, a.id, a.from) IN IF r.ok THEN Ok(r.s) ELSE Err(s)
 
 MsgReqBatch(s, a) ==
-    LET tok == TokByDenom(s.cfg, a.chain, a.denom) IN
-    IF ~IsChain(s.cfg, a.chain) \/ ~Found(tok) THEN Err(s)
+    LET tok == TokByDenom(Cfg(s), a.chain, a.denom) IN
+    IF ~IsChain(Cfg(s), a.chain) \/ ~Found(tok) THEN Err(s)
     ELSE LET r == BuildBatch(s, a.chain, tok.ext, BatchCap)
          IN IF r.made THEN Ok(r.s) ELSE Ok(s)       \* nothing to batch: accepted, nothing created
 
@@ -485,7 +492,7 @@ EventValid(cfg, chain, ev) ==
     /\ (ev.t = "Deposit" /\ "NegativeFeeUnchecked" \notin Dev) => ev.fee >= 0
 
 MsgClaim(s, a) ==
-    IF ~EventValid(s.cfg, a.chain, a.ev) \/ ~IsChain(s.cfg, a.chain) THEN Err(s)
+    IF ~EventValid(Cfg(s), a.chain, a.ev) \/ ~IsChain(Cfg(s), a.chain) THEN Err(s)
     ELSE LET v == SignerVal(s, a.chain, a.by) IN
          IF v = "" THEN Err(s)
          ELSE LET r == RecordVote(s, a.chain, v, a.ev) IN IF r.ok THEN Ok(r.s) ELSE Err(s)
@@ -499,7 +506,7 @@ SigsOf(s, chain, tx) ==
     LET hits == {g \in s.ch[chain].sigs : g.tx = tx} IN IF hits = {} THEN <<>> ELSE (CHOOSE g \in hits : TRUE).by
 
 MsgConfirm(s, a) ==
-    IF ~IsChain(s.cfg, a.chain) \/ a.tx.n = 0 THEN Err(s)
+    IF ~IsChain(Cfg(s), a.chain) \/ a.tx.n = 0 THEN Err(s)
     ELSE LET v == SignerVal(s, a.chain, a.by) IN
          IF v = "" \/ ~TxExists(s, a.chain, a.tx) THEN Err(s)
          ELSE IF Get(s.ch[a.chain].ve, v, "zero") # a.ext THEN Err(s)
